@@ -329,3 +329,198 @@ def _is_dec(f):
         while d % p == 0:
             d //= p
     return d == 1
+
+
+# ------------------------------------------------------------------ histories with faults
+
+def gen_history(rng, tag, n_steps=None, fault_p=0.3):
+    """Declaration history with deliberately invalid steps mixed in.  Every
+    class declaration uses a fresh name; invalid steps only refer to classes
+    and units that exist, so that the implementation raises the library's own
+    exception.  Returns (script, RefWorld after it, list of expected outcomes)."""
+    w = RefWorld()
+    script, exp = [], []
+    n_steps = n_steps or rng.randint(4, 22)
+    counter = [0]
+
+    def fresh(prefix):
+        counter[0] += 1
+        return f"{prefix}{tag}{counter[0]}"
+
+    def push(d):
+        try:
+            e = w.apply(d)
+        except (IndexError, ZeroDivisionError, KeyError):
+            return False
+        script.append(d)
+        exp.append(e)
+        return True
+
+    def classes(pred=lambda c: True):
+        # Money's own new_unit has another signature: currencies are declared by 'currency'
+        return [c for n, c in w.classes.items() if n != 'Quantity' and not c['money'] and pred(c)]
+
+    # seed: one base type with reference unit
+    push({'d': 'cls', 'name': fresh('B'), 'def': None, 'ref': fresh('r'), 'quantum': None})
+    money = rng.random() < 0.4
+    if money:
+        push({'d': 'money'})
+    while len(script) < n_steps:
+        fault = rng.random() < fault_p
+        kind = rng.choice(['base', 'derived', 'scaled', 'scaled', 'term', 'derive', 'derive', 'free']
+                          + (['currency', 'currency'] if money else []))
+        cs = classes()
+        if kind == 'currency':
+            d = {'d': 'currency', 'sym': fresh('C').upper(), 'minor': rng.choice([None, 0, 2, 3]),
+                 'sf': None}
+            if rng.random() < 0.4:
+                d['sf'] = rng.choice(['1/100', '1/20', '1/1000', '1/2'])
+                d['minor'] = None if rng.random() < 0.6 else \
+                    {'1/100': 2, '1/20': 2, '1/1000': 3, '1/2': 1}[d['sf']]
+            if fault:
+                f = rng.choice(['dupsym', 'empty', 'negminor', 'badsf', 'sfmismatch', 'sfone'])
+                if f == 'dupsym' and w.order:
+                    d['sym'] = rng.choice(w.order)
+                elif f == 'empty':
+                    d['sym'] = ''
+                elif f == 'negminor':
+                    d['minor'], d['sf'] = -1, None
+                elif f == 'badsf':
+                    d['minor'], d['sf'] = None, rng.choice(['3/100', '0/1', '-1/100', '7/1'])
+                elif f == 'sfmismatch':
+                    d['minor'], d['sf'] = 3, '1/100'
+                else:
+                    d['minor'], d['sf'] = None, '1/1'
+            push(d)
+            continue
+        if kind == 'base':
+            ref = rng.choice([None, fresh('r'), fresh('r')])
+            d = {'d': 'cls', 'name': fresh('B'), 'def': None, 'ref': ref, 'quantum': None}
+            if fault:
+                f = rng.choice(['dupsym', 'quantum-noref', 'emptyref'])
+                if f == 'dupsym' and w.order:
+                    d['ref'] = rng.choice(w.order)
+                elif f == 'quantum-noref':
+                    d['ref'], d['quantum'] = None, '1/8'
+                else:
+                    d['ref'] = ''
+            push(d)
+        elif kind == 'derived':
+            bs = [c['name'] for c in cs if c['base']] + (['Money'] if money else [])
+            if not bs:
+                continue
+            ks = rng.sample(bs, min(len(bs), rng.choice([1, 1, 2, 2, 3])))
+            cdef = [[c, rng.choice([1, 1, 2, -1, -1, -2, 3])] for c in ks]
+            d = {'d': 'cls', 'name': fresh('D'), 'def': cdef, 'ref': None, 'quantum': None}
+            if all(w.classes[c]['ref'] for c, _ in cdef):
+                if rng.random() < 0.25:
+                    d['ref'] = fresh('r')
+                if rng.random() < 0.25:
+                    d['quantum'] = rng.choice(['1/1', '1/8', '1/100'])
+            if fault:
+                f = rng.choice(['dupdim', 'dupdim', 'dupdim-ref', 'dupsym', 'cancel', 'quantum-noref'])
+                taken = [c for c in cs if not c['base']]
+                if f in ('dupdim', 'dupdim-ref') and taken:
+                    d['def'] = [list(x) for x in rng.choice(taken)['cdef']]
+                    d['quantum'] = None
+                    d['ref'] = fresh('r') if f == 'dupdim-ref' else None
+                elif f == 'dupsym' and w.order:
+                    d['ref'] = rng.choice(w.order)
+                elif f == 'cancel':
+                    d['def'] = [[ks[0], 1], [ks[0], -1]]
+                    d['ref'], d['quantum'] = None, None
+                elif f == 'quantum-noref':
+                    nr = [c['name'] for c in cs if c['base'] and c['ref'] is None]
+                    if nr:
+                        d['def'] = [[nr[0], 2]]
+                        d['ref'], d['quantum'] = None, '1/1'
+            push(d)
+        elif kind in ('scaled', 'free'):
+            cands = [c for c in cs if c['units']] if kind == 'scaled' else \
+                [c for c in cs if c['ref'] is None]
+            if not cands:
+                continue
+            c = rng.choice(cands)
+            sym = fresh('u')
+            if kind == 'free':
+                d = {'d': 'unit', 'cls': c['name'], 'sym': sym, 'def': None}
+            else:
+                base = rng.choice(c['units'])
+                if w.scale(base) is None and c['ref'] is not None:
+                    continue
+                f = rng.choice(FACTORS)
+                qu = w.unit_quantum(base)
+                if qu is not None:            # keep definitions on the grid
+                    f = frs(F(rng.choice([1, 2, 8, 10, 100])) * qu)
+                kind2 = 'dec' if _is_dec(F(f)) and rng.random() < 0.6 else 'frac'
+                d = {'d': 'unit', 'cls': c['name'], 'sym': sym, 'def': ['qty', [kind2, f], base]}
+            if fault:
+                f = rng.choice(['dupsym', 'empty', 'othercls'])
+                if f == 'dupsym' and w.order:
+                    d['sym'] = rng.choice(w.order)
+                elif f == 'empty':
+                    d['sym'] = ''
+                elif f == 'othercls' and d['def'] is not None:
+                    others = [s for s in w.order if w.units[s]['cls'] != c['name']]
+                    if others:
+                        d['def'] = ['qty', ['frac', '2/1'], rng.choice(others)]
+            push(d)
+        elif kind == 'term':
+            ders = [c for c in cs if not c['base'] and c['units'] is not None]
+            if not ders:
+                continue
+            c = rng.choice(ders)
+            try:
+                us = [rng.choice(w.classes[b]['units']) for b, _ in c['cdef']]
+            except IndexError:
+                continue
+            if any(w.scale(u) is None and w.classes[w.units[u]['cls']]['ref'] is not None
+                   for u in us):
+                continue
+            items = [[['u', u], e] for u, (_, e) in zip(us, c['cdef'])]
+            if rng.random() < 0.6:
+                items.insert(0, [['n', ['frac', rng.choice(FACTORS)]], 1])
+            d = {'d': 'unit', 'cls': c['name'], 'sym': fresh('t'), 'def': ['term', items]}
+            if fault:
+                f = rng.choice(['wrongdim', 'wrongcls', 'dupsym'])
+                if f == 'wrongdim':
+                    items[-1][1] = items[-1][1] + 1
+                elif f == 'wrongcls':
+                    others = [k for k in cs if k['name'] != c['name']]
+                    if others:
+                        d['cls'] = rng.choice(others)['name']
+                elif w.order:
+                    d['sym'] = rng.choice(w.order)
+            push(d)
+        else:
+            ders = [c for c in cs if not c['base']]
+            if not ders:
+                continue
+            c = rng.choice(ders)
+            try:
+                us = [rng.choice(w.classes[b]['units']) for b, _ in c['cdef']]
+            except IndexError:
+                continue
+            if c['ref'] is not None and any(w.scale(u) is None for u in us):
+                continue
+            d = {'d': 'derive', 'cls': c['name'], 'units': us,
+                 'sym': None if rng.random() < 0.6 else fresh('v')}
+            if fault:
+                f = rng.choice(['count', 'mismatch', 'base', 'dupsym', 'empty'])
+                if f == 'count':
+                    d['units'] = us + [us[0]]
+                elif f == 'mismatch':
+                    others = [s for s in w.order if w.units[s]['cls'] != c['cdef'][0][0]]
+                    if others:
+                        d['units'] = [rng.choice(others)] + us[1:]
+                elif f == 'base':
+                    bs = [k for k in cs if k['base'] and k['units']]
+                    if bs:
+                        b = rng.choice(bs)
+                        d = {'d': 'derive', 'cls': b['name'], 'units': [b['units'][0]], 'sym': None}
+                elif f == 'dupsym' and w.order:
+                    d['sym'] = rng.choice(w.order)
+                else:
+                    d['sym'] = ''
+            push(d)
+    return script, w, exp
